@@ -220,6 +220,15 @@ def run_case(case):
                 # inverse
                 e3 = np.max(np.abs(fshift(fshift(z, a2, axis=ax), -a2, axis=ax) - z)) / np.max(np.abs(z))
                 res.check(e3 <= (1e-9 if dt == np.float64 else 1e-3), "fshift:inverse", f"n={n} shift then unshift err {e3:.3g}")
+                # spectrum in, spectrum out: a half spectrum with its sample count (both parities) is shifted like the signal
+                import scipy.fft as _sf
+                z64 = z.astype(np.float64)
+                Z = _sf.rfft(z64, axis=ax)
+                Y = fshift(Z.copy(), a2, axis=ax, ns=n)
+                okc = np.iscomplexobj(Y) and Y.shape == Z.shape
+                e6 = np.max(np.abs(_sf.irfft(Y, n, axis=ax) - fshift(z64, a2, axis=ax))) / np.max(np.abs(z64)) if okc else np.inf
+                res.check(e6 <= 1e-9, "fshift:spectrum-input", f"n={n} axis={ax} shift={a2}: shifting the half spectrum (ns={n}) differs from shifting the signal by {e6:.3g}",
+                          counter="spectrum_checked")
                 # linearity
                 z2 = rng.standard_normal(shp).astype(dt)
                 al, be = rng.uniform(-2, 2, 2)
